@@ -155,6 +155,21 @@ def no_move(rep, prog):
             rep.ok("C11.no-move", prog, fn, None, "no mutation of node::pos_" + (" (constructs / clears a node)" if bad else ""))
 
 
+def _alias_root(fn, did, depth=4):
+    """the variable a const local merely names (T x = y; chains), else the variable itself"""
+    from ..model import stable_locals
+    st = stable_locals(fn)
+    for _ in range(depth):
+        i = strip(st[did]) if did in st else {}
+        while i.get("k") == "ParenExpr" and i.get("c"):
+            i = strip(i["c"][0])
+        if i.get("k") == "DeclRefExpr" and (i.get("ref") or {}).get("dk") in ("Var", "ParmVar") and i["ref"].get("did") is not None:
+            did = i["ref"]["did"]
+        else:
+            break
+    return did
+
+
 def labels(rep, prog, split):
     fi = prog.index(split)
     # locals: opposite node of face X ; type label of face X
@@ -182,8 +197,20 @@ def labels(rep, prog, split):
             if r.get("k") == "CXXMemberCallExpr" and r.get("callee") == "cell::create_face":
                 for a in call_args(r):
                     a = strip(a)
-                    if a.get("k") == "DeclRefExpr" and a["ref"]["did"] in opp:
-                        side.setdefault(tgt, set()).add(opp[a["ref"]["did"]])
+                    if a.get("k") == "DeclRefExpr" and _alias_root(split, a["ref"]["did"]) in opp:
+                        side.setdefault(tgt, set()).add(opp[_alias_root(split, a["ref"]["did"])])
+    # an id variable that receives the value of another id variable (x = y; / T x = y;) is built on y's side(s)
+    copied_from = set()
+    for _round in range(3):
+        for n in walk(split["body"]):
+            tgt = rhs = None
+            if n.get("k") == "BinaryOperator" and n.get("op") == "=" and strip(n["c"][0]).get("k") == "DeclRefExpr":
+                tgt, rhs = strip(n["c"][0])["ref"]["did"], strip(n["c"][1])
+            elif n.get("k") == "Var" and isinstance(n.get("init"), dict):
+                tgt, rhs = n["did"], strip(n["init"])
+            if tgt is not None and rhs.get("k") == "DeclRefExpr" and rhs["ref"].get("did") in side:
+                side.setdefault(tgt, set()).update(side[rhs["ref"]["did"]])
+                copied_from.add(rhs["ref"]["did"])
     n_sites = 0
     for n in walk(split["body"]):
         if n.get("k") == "CXXMemberCallExpr" and n.get("callee") == "face::set_face_type_id":
@@ -213,7 +240,7 @@ def labels(rep, prog, split):
         d = [v for v in walk(split["body"]) if v.get("k") == "Var" and v.get("did") == did][0]
         if dels and fi.order[id(d)] > min(fi.order[id(x)] for x in dels):
             rep.violation("C11.label-propagation", prog, split, d, "label %s read after the parent face was deleted" % d["name"], "'%s' is read from the parent face after delete_face: the slot may already describe another face" % d["name"])
-    created = {d for d in side}
+    created = {d for d in side if d not in copied_from}      # the variables that finally hold the ids (not the temporaries copied into them)
     if n_sites < len(created) or n_sites == 0:
         rep.violation("C11.label-propagation", prog, split, None, "%d of %d new faces labelled" % (n_sites, len(created)), "split_edge creates %d faces but labels only %d of them: the others silently get face type 0" % (len(created), n_sites))
 
@@ -268,7 +295,8 @@ def winding_sides(rep, prog, split):
                     bs |= side_of_local(a["ref"]["did"])
         covered_sides |= cs
         if len(cs) == 1 and bs == cs:
-            rep.ok("C11.winding-side", prog, split, n, "orientation test and the faces created under it all refer to one parent face")
+            pname = [v.get("name") for v in walk(split["body"]) if v.get("k") in ("Var", "ParmVar") and v.get("did") in cs] or [p_.get("name") for p_ in split.get("params", []) if p_.get("did") in cs]
+            rep.ok("C11.winding-side", prog, split, n, "orientation test and the faces created under it all refer to one parent face (%s)" % (", ".join(x for x in pname if x) or "parent #%s" % sorted(cs)[0]))
         elif not cs or not bs:
             # neither the test nor the created faces could be traced to a parent face (e.g. the test lives in a lambda that
             # receives the parent's quantities as parameters and is called once per parent): unknown, not a mix-up
